@@ -99,7 +99,8 @@ theorem csv_hash_cex_old_writer :
 /-! ## T-intersect -/
 
 /-- "intersecting manifests keeps exactly the common records": a row of `a` is kept iff some row of
-    `b` equals it in every field except `internal_location` (and the derived `md5short`) … -/
+    `b` equals it in every field except `internal_location` (and the derived `md5short`), the
+    molecule column compared without regard to letter case … -/
 theorem intersect_mem (a b : List Record) (r : Record) :
     r ∈ intersect a b ↔ r ∈ a ∧ ∃ q ∈ b, recEq r q = true := by
   unfold intersect
@@ -108,12 +109,31 @@ theorem intersect_mem (a b : List Record) (r : Record) :
 /-- … in the order of `a` -/
 theorem intersect_sublist (a b : List Record) : (intersect a b).Sublist a := List.filter_sublist
 
-/-- `recEq` is equality of the nine compared fields -/
+/-- `recEq` is equality of the nine compared fields, the molecule column modulo ASCII letter case -/
 theorem recEq_iff (a b : Record) :
     recEq a b = true ↔
-      a.md5 = b.md5 ∧ a.ksize = b.ksize ∧ a.moltype = b.moltype ∧ a.scaled = b.scaled ∧ a.num = b.num ∧
+      a.md5 = b.md5 ∧ a.ksize = b.ksize ∧ a.moltype.map asciiLower = b.moltype.map asciiLower ∧
+      a.scaled = b.scaled ∧ a.num = b.num ∧
       a.nHashes = b.nHashes ∧ a.withAbundance = b.withAbundance ∧ a.name = b.name ∧ a.filename = b.filename := by
-  simp [recEq, and_assoc]
+  simp [recEq, eqIgnoreAsciiCase, and_assoc]
+
+/-- `Hash for Record` agrees with `PartialEq for Record`: two records are equal iff they feed the
+    hasher the same key — so the `HashSet` look-up of `intersect_manifest` is "some row is `==`", and
+    record equality is an equivalence relation -/
+theorem recEq_iff_key (a b : Record) : recEq a b = true ↔ recKey a = recKey b := by
+  rw [recEq_iff]
+  simp [recKey, Prod.ext_iff]
+
+/-- records that are equal name the same molecule type: `Record::moltype()` lower-cases before it
+    matches, so it parses both to the same value, or panics on both -/
+theorem recEq_mol (a b : Record) (h : recEq a b = true) : a.mol? = b.mol? := by
+  have hm := ((recEq_iff a b).1 h).2.2.1
+  simp only [Record.mol?, Mol.parse, hm]
+/-- rows spelled "DNA" and "dna" are equal records, and both name `.dna` -/
+example : recEq { (default : Record) with moltype := [68, 78, 65], internalLocation := [97] }
+                { (default : Record) with moltype := [100, 110, 97], internalLocation := [98] } = true ∧
+          ({ (default : Record) with moltype := [100, 110, 97] } : Record).mol? = some .dna := by
+  decide
 
 /-- a manifest intersected with itself is itself -/
 theorem intersect_self (a : List Record) : intersect a a = a := by
@@ -128,11 +148,12 @@ theorem recEq_ignores_location (a b : Record) (loc short : Bytes) :
     recEq { a with internalLocation := loc, md5short := short } b = recEq a b ∧
     recEq a { b with internalLocation := loc, md5short := short } = recEq a b := ⟨rfl, rfl⟩
 
-/-- … and at every other column: two records that differ in any one of md5, ksize, moltype, scaled,
-    num, n_hashes, with_abundance, name, filename are different records (so a record and its
-    "flattened" twin, which differ in `with_abundance` only, are not common to two manifests) -/
+/-- … and at every other column: two records that differ in any one of md5, ksize, moltype (by more
+    than the letter case), scaled, num, n_hashes, with_abundance, name, filename are different records
+    (so a record and its "flattened" twin, which differ in `with_abundance` only, are not common to
+    two manifests) -/
 theorem recEq_false_of_ne (a b : Record)
-    (h : a.md5 ≠ b.md5 ∨ a.ksize ≠ b.ksize ∨ a.moltype ≠ b.moltype ∨ a.scaled ≠ b.scaled ∨ a.num ≠ b.num ∨
+    (h : a.md5 ≠ b.md5 ∨ a.ksize ≠ b.ksize ∨ a.moltype.map asciiLower ≠ b.moltype.map asciiLower ∨ a.scaled ≠ b.scaled ∨ a.num ≠ b.num ∨
       a.nHashes ≠ b.nHashes ∨ a.withAbundance ≠ b.withAbundance ∨ a.name ≠ b.name ∨ a.filename ≠ b.filename) :
     recEq a b = false := by
   cases hr : recEq a b with
